@@ -140,4 +140,6 @@ STD_ENUMS = {
     'TokenAtOffset': [('None', False, 0), ('Single', True, 1), ('Between', True, 2)],
     'Direction': [('Next', False, 0), ('Prev', False, 1)],
     'WalkEvent': [('Enter', True, 0), ('Leave', True, 1)],
+    'Level': [('Error', False, 1), ('Warn', False, 2), ('Info', False, 3), ('Debug', False, 4), ('Trace', False, 5)],
+    'LevelFilter': [('Off', False, 0), ('Error', False, 1), ('Warn', False, 2), ('Info', False, 3), ('Debug', False, 4), ('Trace', False, 5)],
 }
